@@ -163,7 +163,7 @@ inductive TExpr
   | bin (op : BinSym) (τ : Ty) (a b : TExpr)     -- BinaryOperator
   | tern (τ : Ty) (c a b : TExpr)                -- TernaryOperator
   | cast (implicit : Bool) (τ : Ty) (a : TExpr)  -- Cast / ImplicitCast
-  deriving Repr
+  deriving Repr, DecidableEq
 
 def TExpr.ty : TExpr → Ty
   | .var τ _ | .num τ _ | .chr τ _ | .szof τ _ | .un _ τ _ | .bin _ τ _ _ | .tern τ _ _ _ | .cast _ τ _ => τ
